@@ -116,7 +116,10 @@ func (r *basicResolver) ResolveToLastNode(ctx context.Context, fpath path.Immuta
 	nd, err := parent.LookupBySegment(ipld.ParsePathSegment(lastSegment))
 	switch err.(type) {
 	case nil:
-	case schema.ErrNoSuchField:
+	case schema.ErrNoSuchField, ipld.ErrWrongKind:
+		// ErrWrongKind: the parent has no named entries at all (a file, raw
+		// bytes, a scalar), so it does not have this one either. This is the
+		// same answer as when the missing name is not the last segment.
 		return cid.Undef, nil, &ErrNoLink{Name: lastSegment, Node: lastCid}
 	default:
 		return cid.Cid{}, nil, err
